@@ -557,6 +557,28 @@ def oracle(case):
 			return {'what': 'JSON round trip (charset %s) raised %s: %s' % (cs, exc_name(e), e), 'case': describe(case), 'finding': None}
 		if back != v or back2 != v:
 			return {'what': 'JSON round trip (charset %s): value differs' % cs, 'case': describe(case), 'finding': None}
+		# one Body object whose content is replaced (truncate + write, parse) after it was decoded / encoded: decode() reads what is there now
+		try:
+			other = {'replaced': [1, 2, v]}
+			b3 = Body(mimetype=mtj)
+			b3.encode(v)
+			b3.decode()
+			raw = JSON.encode(other, cs)
+			b3.seek(0)
+			b3.truncate()
+			b3.write(raw)
+			got3 = b3.decode()
+			b4 = Body(mimetype=mtj)
+			b4.encode(v)
+			b4.decode()
+			b4.seek(0)
+			b4.truncate()
+			b4.parse(raw)
+			got4 = b4.decode()
+			if got3 != other or got4 != other:
+				return {'what': 'a Body that was decoded, then emptied and filled again (write / parse) decodes to %r / %r, its content now is %r' % (got3, got4, other), 'case': describe(case), 'finding': None}
+		except Exception as e:
+			return {'what': 'replacing the content of a decoded Body raised %s: %s' % (exc_name(e), e), 'case': describe(case), 'finding': None}
 		return None
 	if k == 'http':
 		return http_roundtrip(case[1], case)
